@@ -1,6 +1,6 @@
 (* Properties_C11.v — obligations of property C11 (ECC and country follow group 1A variant 0 and
    the IEC 62106-4 table). *)
-Require Import ObsRun Lemmas_Ecc Lemmas_TabEcc Lemmas_Leaf.
+Require Import ObsRun Lemmas_Ecc Lemmas_TabEcc Lemmas_Leaf_C11.
 Local Open Scope Z_scope.
 
 (* The table measured on the compiled library (complete graph over 16 PI nibbles x 256 ECC values;
